@@ -14,16 +14,21 @@ def infoByte (ver : Nat) (start : Bool) : UInt8 := (ver * 2 + (if start then 1 e
 def fill (pre : Bytes) : Bytes := pre ++ zeros (512 - pre.length)
 
 /-- consecutive chunks of `n` bytes (the last one may be shorter); `[]` for empty data. -/
-def chunksOf (n : Nat) : Nat → Bytes → List Bytes
-  | 0, _ => []
-  | fuel + 1, d => if d.length = 0 then [] else d.take n :: chunksOf n fuel (d.drop n)
+def chunksOf (n : Nat) (d : Bytes) : List Bytes :=
+  if h : d = [] ∨ n = 0 then [] else d.take n :: chunksOf n (d.drop n)
+termination_by d.length
+decreasing_by
+  have h1 : d ≠ [] := fun e => h (Or.inl e)
+  have h2 : n ≠ 0 := fun e => h (Or.inr e)
+  have : 0 < d.length := List.length_pos_iff.mpr h1
+  simp only [List.length_drop]; omega
 
 /-- sparse (blob) sequence. -/
 def sparseSeq (b : Blob) : List Bytes :=
   let signer : Bytes := if b.ver = 1 then b.signer.getD [] else []
   let cap0 := 478 - signer.length
   let first := fill (b.ns ++ [infoByte b.ver true] ++ be32 b.data.length ++ signer ++ b.data.take cap0)
-  let rest := (chunksOf 482 b.data.length (b.data.drop cap0)).map
+  let rest := (chunksOf 482 (b.data.drop cap0)).map
     (fun c => fill (b.ns ++ [infoByte b.ver false] ++ c))
   first :: rest
 
